@@ -2,6 +2,8 @@ import gfapy
 import re
 
 def unsafe_decode(string):
+  if len(string) == 0:
+    raise gfapy.FormatError("an oriented identifier cannot be empty")
   return gfapy.OrientedLine(string[:-1], string[-1])
 
 def decode(string):
